@@ -17,6 +17,7 @@ from concurrent.futures import ThreadPoolExecutor
 import vlib
 
 PID = "C14"
+# actions of OnionMC whose occurrence is derived from the printed scripts (vacuity guard)
 ACTIONS = ["MBuildSize", "MBuildOps", "MCorrupt", "MPeel", "MFailAt", "MWrap", "MAttribute",
            "MFulfill", "MFulfillWrap", "MFulfillAttribute"]
 
@@ -337,7 +338,7 @@ def run(tier, seed):
                 "peel_payment_onion, build/wrap/decode of a failure packet or fulfil attribution step",
         "samples": samples,
         "mc": {"cfg": cfg, "states": r["distinct"], "transitions": r["states"], "depth": r["depth"],
-               "action_coverage": r["coverage"], "wall_s": round(r["wall_s"], 1)},
+               "scripts_exercising_action": r["coverage"], "wall_s": round(r["wall_s"], 1)},
         "scripts_from_tlc": nscripts_total, "scripts_executed": len(scripts), "script_reps": reps,
         "random_scripts": nrand, "runs": summ["runs"], "runs_skipped": summ["skipped"],
         "events_validated": total, "traces_validated_against_impl": summ["runs"],
